@@ -1,8 +1,8 @@
 (* C28 — String and collection functions obey their algebraic laws.
-   Models: Model/StrFns.v, Model/CollFns.v (+ Model/CaseTables.v, Model/CodecUtf8.v).  Nothing but statements here. *)
+   Models: Model/StrFns.v, Model/CollFns.v, Model/Casing.v (+ Model/CaseTables.v, Model/CodecUtf8.v).  Nothing but statements here. *)
 From Coq Require Import List NArith ZArith Bool String.
 From VRL Require Import Base.Bytes Base.Value Base.Lit Model.CodecUtf8 Model.CaseTables Model.StrFns Model.CollFns
-     Proofs.StrUtf8 Proofs.StrFnsProofs Proofs.CollFnsProofs.
+     Model.Casing Proofs.StrUtf8 Proofs.StrFnsProofs Proofs.StrFnsProofs2 Proofs.CollFnsProofs Proofs.CasingProofs.
 Import ListNotations.
 Local Open Scope string_scope.
 Local Open Scope list_scope.
@@ -38,6 +38,28 @@ Theorem C28_downcase_idem : forall s : bytes, downcase (downcase s) = downcase s
 Proof. exact downcase_idem. Qed.
 Print Assumptions C28_downcase_idem.
 
+(* ======================= casing functions (convert_case), modelled on printable ASCII ======================= *)
+
+(* snakecase, kebabcase and screamingsnakecase are idempotent *)
+Theorem C28_snake_kebab_screaming_idem_ascii : forall s : bytes,
+  snakecase (snakecase s) = snakecase s /\ kebabcase (kebabcase s) = kebabcase s
+  /\ screamingsnakecase (screamingsnakecase s) = screamingsnakecase s.
+Proof. intros s. split; [apply snakecase_idem | split; [apply kebabcase_idem | apply screamingsnakecase_idem]]. Qed.
+Print Assumptions C28_snake_kebab_screaming_idem_ascii.
+
+(* every word of the segmentation is non-empty, free of separators and has no letter|digit neighbours *)
+Theorem C28_casing_words_ok : forall s : bytes, Forall okw (words s).
+Proof. exact words_okw. Qed.
+Print Assumptions C28_casing_words_ok.
+
+(* KNOWN FINDING C28-casing-camel-resegmentation: camelcase("x_a_b") = "xAB" but camelcase("xAB") = "xAb";
+   pascalcase("a_b") = "AB" but pascalcase("AB") = "Ab" *)
+Theorem C28_camel_pascal_idem_refuted :
+  (exists s, forallb printable s = true /\ camelcase (camelcase s) <> camelcase s)
+  /\ (exists s, forallb printable s = true /\ pascalcase (pascalcase s) <> pascalcase s).
+Proof. exact camel_pascal_not_idem. Qed.
+Print Assumptions C28_camel_pascal_idem_refuted.
+
 (* ======================= strip_whitespace ======================= *)
 
 (* the table: exactly the 25 White_Space code points *)
@@ -72,6 +94,19 @@ Theorem C28_join_split_valid : forall (s d : bytes) (limit : Z), (1 <= limit)%Z 
   valid_utf8 s = true -> valid_utf8 d = true -> join_bytes d (split_str s d limit) = s.
 Proof. exact join_split_valid. Qed.
 Print Assumptions C28_join_split_valid.
+
+(* every piece of a split is valid UTF-8, so the law holds on the functions themselves (join converts each item
+   lossily): join(split(s, d, limit: n), d) = s *)
+Theorem C28_fn_join_split : forall (s d : bytes) (limit : Z), (1 <= limit)%Z ->
+  exists l, fn_split (VBytes s) (VBytes d) (VInt limit) = ROk (VArr l)
+            /\ fn_join (VArr l) (Some (VBytes d)) = ROk (VBytes (utf8_lossy s)).
+Proof. exact fn_join_split. Qed.
+Print Assumptions C28_fn_join_split.
+
+Theorem C28_split_pieces_valid : forall (s d : bytes) (limit : Z),
+  Forall (fun x => valid_utf8 x = true) (split_str s d limit).
+Proof. exact split_pieces_valid. Qed.
+Print Assumptions C28_split_pieces_valid.
 
 (* ======================= starts_with / ends_with / contains ======================= *)
 
@@ -115,6 +150,14 @@ Theorem C28_starts_with_ci_refuted : exists s p : bytes,
   /\ is_prefix (downcase p) (downcase s) = false /\ (List.length (chars s) < List.length (chars p))%nat.
 Proof. exists (utf8_of_cps [8490]%N), (utf8_of_cps [107; 107]%N). vm_compute. repeat split; repeat constructor. Qed.
 Print Assumptions C28_starts_with_ci_refuted.
+
+(* ...and outside that class (every char of both strings lowercases to ONE char of the same UTF-8 length) the
+   case-insensitive starts_with is exactly "the per-char lowercase of p is a prefix of that of s" *)
+Theorem C28_starts_with_ci_spec : forall s p : bytes,
+  valid_utf8 s = true -> valid_utf8 p = true -> KnownC28_sw_zip s p = false ->
+  starts_with_ci s p = is_prefix (map low1 (utf8_chars p)) (map low1 (utf8_chars s)).
+Proof. exact starts_with_ci_spec. Qed.
+Print Assumptions C28_starts_with_ci_spec.
 
 (* ======================= truncate / strlen ======================= *)
 
@@ -267,6 +310,9 @@ Example C28_nonvacuous :
   /\ compact_val compact_defaults (VArr [VNull; VArr [VNull]; VBytes (hx "61"); VObj [(hx "6b", VBytes [])]]) = VArr [VBytes (hx "61")]
   /\ merge_into true [(hx "61", VObj [(hx "78", VInt 1)])] (VObj [(hx "61", VObj [(hx "79", VInt 2)])])
      = [(hx "61", VObj [(hx "78", VInt 1); (hx "79", VInt 2)])]
+  /\ KnownC28_sw_zip (hx "c389c39f") (hx "c3a9") = false /\ starts_with_ci (hx "c389c39f") (hx "c3a9") = true
+  /\ KnownC28_sw_zip (hx "e284aa") (hx "6b6b") = true
+  /\ snakecase (hx "763252656c6561736520584d4c48747470") = hx "765f325f72656c656173655f786d6c5f68747470"
   /\ NoDup (map fst [(hx "61", VObj [(hx "79", VInt 2)])]).
 Proof.
   split; [exact upper_cp_stable|]. split; [exact lower_cp_stable|].
